@@ -31,7 +31,7 @@ MANIFEST = {
             "every panic site (add/sub overflow, slice index, split_at, copy_from_slice length) on every path is discharged by linear "
             "reasoning from the guards. Recovery then follows for every interleaving because each call starts from the invariant.",
     "note": "Termination of the re-feed loop is argued by hand from two checked facts (ranking argument), not mechanically. Trusted: std slice contracts.",
-    "technique": "static analysis: exhaustive path enumeration + linear-inequality discharge of panic obligations + typestate (idx reset) rule",
+    "technique": "static analysis: semantic summary of feed_ref vs the hand-written overflow cases + linear-arithmetic discharge of every panic obligation + typestate (idx reset) rule",
 }
 
 
